@@ -15,6 +15,9 @@ GETTERS = {
     "tri": lambda x: 3 * x,
     "sq": lambda x: x * x,
     "add5": lambda x: x + 5,
+    "none": lambda x: None,
+    "pair": lambda x: (x, x + 1),
+    "first": lambda t: t[0],
 }
 
 
@@ -29,9 +32,11 @@ def enc(x):
         return _v("other", l=[repr(x)])
     if isinstance(x, bool):
         return _v("other", l=[repr(x)])
+    if x is None:
+        return _v("N")
     if isinstance(x, int) and x >= 0:
         return _v("I", l=[str(x)])
-    if isinstance(x, str) and x:
+    if isinstance(x, str):
         return _v("S", l=[p for p in re.split(r"(_)", x) if p])
     if isinstance(x, list) and all(isinstance(y, str) for y in x):
         return _v("L", l=x)
@@ -46,6 +51,8 @@ def dec(v):
         return dict((key, dec(x)) for key, x in (v["m"] or {}).items())
     if k == "S":
         return "".join(v["l"])
+    if k == "N":
+        return None
     if k == "I":
         return int(v["l"][0])
     if k == "L":
@@ -60,12 +67,16 @@ def enc_data(d):
         return {"k": "T", "i": 0, "t": [enc_data(x) for x in d]}
     if isinstance(d, int) and not isinstance(d, bool):
         return {"k": "I", "i": d, "t": []}
+    if d is None:
+        return {"k": "N", "i": 0, "t": []}
     return {"k": "other", "i": 0, "t": [], "repr": repr(d)}
 
 
 def dec_data(d):
     if d["k"] == "T":
         return tuple(dec_data(x) for x in d["t"])
+    if d["k"] == "N":
+        return None
     return d["i"]
 
 
@@ -80,7 +91,8 @@ def make(expr, made=None):
     else:
         ch = [make(e, made) for e in expr["ch"]]
         if k == "cmp":
-            o = lena.variables.Compose(*ch)
+            kw = dict((key, dec(x)) for key, x in (expr["v"]["attrs"] or {}).items())
+            o = lena.variables.Compose(*ch, **kw)
         else:
             kw = dict((key, dec(x)) for key, x in (expr["v"]["attrs"] or {}).items())
             if expr["v"]["name"]:
@@ -118,8 +130,15 @@ def sig(expr):
     return ("Compose" if expr["k"] == "cmp" else "Combine") + "(" + ",".join(sig(e) for e in expr["ch"]) + kw + ")"
 
 
+def has_untyped(chain):
+    return any((e["k"] == "var" and not e["v"]["type"]) or (e["k"] != "var" and has_untyped(e["ch"]))
+               for e in chain)
+
+
 def start_kind(c):
     var = c.get("variable")
+    if "variable" in c and not var:
+        return "empty-variable"
     if var is None:
         return "no-variable" if not c else "other-keys"
     if "type" not in var:
